@@ -493,7 +493,7 @@ fn to_string_moved(
                 to_string_moved(right, move_context, locale, language)
             ),
         },
-        ErrorKind(kind) => format!("{kind}"),
+        ErrorKind(kind) => kind.to_localized_error_string(language),
         ParseErrorKind { formula, .. } => formula.to_string(),
         EmptyArgKind => "".to_string(),
         ImplicitIntersection {
